@@ -24,4 +24,4 @@ W = ["mu.lock_slow", "mu.trylock", "mu.rtrylock", "mu.lock", "mu.rlock", "mu.try
 
 
 def groups(tier):
-    return mu_groups(tags=["C14"], which=W) + mu_lemmas(tags=["C14"])
+    return mu_groups(tags=["C14"], which=W, tier=tier) + mu_lemmas(tags=["C14"])
